@@ -29,13 +29,16 @@ VARIABLES mask, deps, heap, blocks, call,
           l,        \* next trace line
           skip,     \* consuming an execution unjudged after a foreign failure
           proj,     \* handle |-> expected projection (cache of Projection(SeedOf(h)))
-          issued    \* string register |-> [seed, coin, lang, str]: phrases the library itself produced (history)
+          issued,   \* string register |-> [seed, coin, lang, str]: phrases the library itself produced (history)
+          lastAuto  \* the most recent automatic decoding: [str, coin, fail, mask, lang, st] (history)
 
 INSTANCE Polyseed
 
-tvars == <<mask, deps, heap, blocks, call, l, skip, proj, issued>>
+tvars == <<mask, deps, heap, blocks, call, l, skip, proj, issued, lastAuto>>
 
 Ev == TraceLog[l]
+
+NoAuto == [str |-> <<0 - 1>>, coin |-> 0, fail |-> 0, mask |-> 0, lang |-> 0, st |-> 0]
 
 -----------------------------------------------------------------------------
 (* verdict on a sequence of conditions                                      *)
@@ -59,7 +62,7 @@ SoftNames == { "no-secret-residue-on-dead-stack", "input-not-modified", "key-lef
                "crypt-password-length", "crypt-password", "phrase-bytes", "phrase-fits-the-public-buffer",
                "nfc-of-the-decomposed-phrase", "word-table-equals-published-list",
                "token-resolves-by-the-published-rule", "doubling-rule-is-multiplication-by-x",
-               "polynomial-evaluation-at-x" }
+               "polynomial-evaluation-at-x", "no-other-source-of-time-randomness-or-memory" }
 
 VerdictOfBad(bad) ==
     IF bad = <<>> THEN "ok"
@@ -80,7 +83,7 @@ Advance == l' = l + 1
 \* a foreign failure: stop judging this execution
 GoSkip == /\ skip' = TRUE
           /\ Advance
-          /\ UNCHANGED <<mask, deps, heap, blocks, call, proj, issued>>
+          /\ UNCHANGED <<mask, deps, heap, blocks, call, proj, issued, lastAuto>>
 
 \* (operator parameters are evaluated once by TLC; LET definitions once per use)
 OnVerdict(v, okStep) == CASE v = "ok" -> okStep [] v = "foreign" -> GoSkip [] OTHER -> FALSE
@@ -95,8 +98,8 @@ ArgsOf(e) ==
       [] e.op = "Create"  -> [lo |-> e.lo, hi |-> e.hi]
       [] e.op = "Free"    -> [h |-> e.h]
       [] e.op = "Encode"  -> [h |-> e.h, lang |-> LangNo(e.lang), coin |-> e.coin]
-      [] e.op = "Decode"  -> [str |-> e.str, len |-> e.len, coin |-> e.coin, lang |-> 0, wantlang |-> e.wantlang, sreg |-> e.sreg]
-      [] e.op = "DecodeX" -> [str |-> e.str, len |-> e.len, coin |-> e.coin, lang |-> LangNo(e.lang), wantlang |-> FALSE, sreg |-> e.sreg]
+      [] e.op = "Decode"  -> [str |-> e.str, len |-> e.len, coin |-> e.coin, lang |-> 0, wantlang |-> e.wantlang, sreg |-> e.sreg, fail |-> e.fail]
+      [] e.op = "DecodeX" -> [str |-> e.str, len |-> e.len, coin |-> e.coin, lang |-> LangNo(e.lang), wantlang |-> FALSE, sreg |-> e.sreg, fail |-> e.fail]
       [] e.op = "Store"   -> [h |-> e.h]
       [] e.op = "Load"    -> [buf |-> e.buf]
       [] e.op = "Crypt"   -> [h |-> e.h, pw |-> e.pw, len |-> e.len]
@@ -165,13 +168,13 @@ LiveConds(live, i, newheap, target) ==
 TStart ==
     /\ Ev.e = "Start"
     /\ Advance
-    /\ UNCHANGED <<mask, deps, heap, blocks, call, skip, proj, issued>>
+    /\ UNCHANGED <<mask, deps, heap, blocks, call, skip, proj, issued, lastAuto>>
 
 TReset ==
     /\ Ev.e = "Reset"
     /\ mask' = 0
     /\ deps' = DepsOfSet(<<"A", "A", "A", "A", "A", "A", "A", "A">>)
-    /\ heap' = <<>> /\ blocks' = <<>> /\ call' = None /\ proj' = <<>> /\ issued' = <<>>
+    /\ heap' = <<>> /\ blocks' = <<>> /\ call' = None /\ proj' = <<>> /\ issued' = <<>> /\ lastAuto' = NoAuto
     /\ skip' = FALSE
     /\ Advance
 
@@ -180,13 +183,16 @@ TEnd ==
     /\ IF Ev.complete THEN TRUE
        ELSE skip \/ (PrintT(<<"REJECT", l, "trace-cut-short", {"C14", "C13"}, "End">>) /\ FALSE)
     /\ Advance
-    /\ UNCHANGED <<mask, deps, heap, blocks, call, skip, proj, issued>>
+    /\ UNCHANGED <<mask, deps, heap, blocks, call, skip, proj, issued, lastAuto>>
+
+ObserverFault == Ev.e = "Fault" /\ Ev.what \in {"global-write", "race", "serial-mismatch"}
 
 TSkip ==
     /\ skip
     /\ Ev.e \notin {"Reset", "End", "Start"}
+    /\ ~ObserverFault
     /\ Advance
-    /\ UNCHANGED <<mask, deps, heap, blocks, call, skip, proj, issued>>
+    /\ UNCHANGED <<mask, deps, heap, blocks, call, skip, proj, issued, lastAuto>>
 
 FaultTags(op) ==
     CASE op \in {"decode", "decodex", "crypt", "load"} -> {"C14", "C13", "C19"}
@@ -196,9 +202,11 @@ FaultTags(op) ==
 
 \* observers of the concurrent runs: a store into write-protected library data, a ThreadSanitizer report
 TFault ==
-    /\ ~skip
+    /\ ~skip \/ ObserverFault
     /\ Ev.e = "Fault"
-    /\ OnVerdict(Verdict(IF Ev.what = "global-write"
+    /\ OnVerdict(Verdict(IF Ev.what = "serial-mismatch"
+                         THEN << Cond("thread-results-equal-serial-execution", {"C20"}, FALSE) >>
+                         ELSE IF Ev.what = "global-write"
                          THEN << Cond("library-static-data-written-while-threads-run", {"C20", "C13"}, FALSE) >>
                          ELSE IF Ev.what = "race"
                          THEN << Cond("data-race-reported", {"C20"}, FALSE) >>
@@ -211,7 +219,7 @@ TBegin ==
     /\ OnVerdict(Verdict(<< Cond("no-call-in-flight", {"C13"}, call = None),
                             Cond("handle-is-live", {"HARNESS"},
                                  (UsesHandle(Ev.op) /\ ~(Ev.op = "Free" /\ Ev.h = 0)) => Ev.h \in DOMAIN heap) >>),
-                 Begin(Ev.op, ArgsOf(Ev)) /\ Advance /\ UNCHANGED <<skip, proj, issued>>)
+                 Begin(Ev.op, ArgsOf(Ev)) /\ Advance /\ UNCHANGED <<skip, proj, issued, lastAuto>>)
 
 DepKinds == {"Alloc", "Free", "Memzero", "Rand", "Time", "Kdf", "Nfkd", "Nfc", "Forbidden"}
 
@@ -220,7 +228,7 @@ TDep ==
     /\ Ev.e \in DepKinds
     /\ OnVerdict(Verdict(IF call = None THEN << Cond("dependency-used-outside-a-call", {"C13", "C18"}, FALSE) >>
                          ELSE DepConds(Ev)),
-                 DepUpdate(Ev) /\ Advance /\ UNCHANGED <<skip, proj, issued>>)
+                 DepUpdate(Ev) /\ Advance /\ UNCHANGED <<skip, proj, issued, lastAuto>>)
 
 TargetOf(r) ==
     IF call.op \in ConstructorOps THEN r.h
@@ -245,20 +253,35 @@ RoundTripConds(r, exp) ==
                          \/ (call.op = "Decode" /\ r.st = StMultLang /\ exp.st = StMultLang)) >>
     ELSE <<>>
 
+\* C09 as a relation between the two decoders: on the same string, coin, enabled mask and allocator behaviour,
+\* explicit decoding with the one language that recognises all tokens gives exactly the automatic outcome
+AgreementConds(r) ==
+    IF call.op = "DecodeX" /\ lastAuto.lang # 0 /\ lastAuto.lang = call.a.lang /\ lastAuto.str = call.a.str
+          /\ lastAuto.coin = call.a.coin /\ lastAuto.fail = call.a.fail /\ lastAuto.mask = mask
+    THEN << Cond("explicit-decoding-agrees-with-automatic", {"C09", "C13"}, r.st = lastAuto.st) >>
+    ELSE <<>>
+
+LastAutoAfter(r, exp) ==
+    IF call.op = "Decode"
+    THEN [str |-> call.a.str, coin |-> call.a.coin, fail |-> call.a.fail, mask |-> mask,
+          lang |-> (IF r.st \in {StNumWords, StLang, StMultLang} THEN 0 ELSE exp.lang), st |-> r.st]
+    ELSE lastAuto
+
 IssuedAfter(r) ==
     IF call.op = "Encode" /\ r.str # <<>>
     THEN (r.sreg :> [seed |-> SeedOf(call.a.h), coin |-> call.a.coin, lang |-> call.a.lang, str |-> r.str]) @@ issued
     ELSE issued
 
-TRetLive(r, nh, t) ==
+TRetLive(r, nh, t, exp) ==
     OnVerdict(Verdict(<< Cond("live-seeds-are-the-model's", {"C13", "C15"},
                              r.live = <<>> \/ LiveSet(r) = DOMAIN nh) >>
                       \o LiveCondsWith(r.live, nh, IF t # 0 /\ t \in DOMAIN nh THEN t ELSE 0)),
-              /\ ReturnUpdate(r, nh) /\ Advance /\ skip' = skip /\ issued' = IssuedAfter(r)
+              /\ ReturnUpdate(r, nh) /\ Advance /\ skip' = skip /\ issued' = IssuedAfter(r) /\ lastAuto' = LastAutoAfter(r, exp)
               /\ proj' = [h \in DOMAIN nh |-> IF h \in DOMAIN proj /\ h # t THEN proj[h]
                                                ELSE Projection(nh[h].seed)])
 
-TRetEval(r, ev) == OnVerdict(Verdict(ev.conds \o RoundTripConds(r, ev.exp)), TRetLive(r, ev.heap, TargetOf(r)))
+TRetEval(r, ev) == OnVerdict(Verdict(ev.conds \o RoundTripConds(r, ev.exp) \o AgreementConds(r)),
+                             TRetLive(r, ev.heap, TargetOf(r), ev.exp))
 
 TRet ==
     /\ ~skip
@@ -269,14 +292,14 @@ TRet ==
 -----------------------------------------------------------------------------
 (* direct observations of internals (optional: absent if refactored away)   *)
 
-Same == UNCHANGED <<mask, deps, heap, blocks, call, skip, proj, issued>>
+Same == UNCHANGED <<mask, deps, heap, blocks, call, skip, proj, issued, lastAuto>>
 
 TStr ==       \* a literal was put into a string register: whatever the library had issued there is gone
     /\ ~skip
     /\ Ev.e = "Str"
     /\ issued' = [k \in (DOMAIN issued) \ {Ev.sreg} |-> issued[k]]
     /\ Advance
-    /\ UNCHANGED <<mask, deps, heap, blocks, call, skip, proj>>
+    /\ UNCHANGED <<mask, deps, heap, blocks, call, skip, proj, lastAuto>>
 
 TWords ==
     /\ ~skip
@@ -310,7 +333,7 @@ TEval ==
 
 TraceInit ==
     /\ Init
-    /\ l = 1 /\ skip = FALSE /\ proj = <<>> /\ issued = <<>>
+    /\ l = 1 /\ skip = FALSE /\ proj = <<>> /\ issued = <<>> /\ lastAuto = NoAuto
 
 TraceNext ==
     /\ l <= N
